@@ -11,6 +11,16 @@ fn main() {
   if args.is_empty() {
     usage();
   }
+  if args[0] == "__case" {
+    // child side of engine::run_isolated: vprop __case <PROP> <stage> <case.json>
+    install_panic_hook();
+    let path = PathBuf::from(&args[3]);
+    let code = match (args[1].as_str(), args[2].as_str()) {
+      ("C12", _) => vprop::c12::child(&path),
+      _ => 2,
+    };
+    std::process::exit(code);
+  }
   let prop = args[0].clone();
   let mut tier = match std::env::var("VERIF_TIER").as_deref() {
     Ok("thorough") => Tier::Thorough,
@@ -74,6 +84,7 @@ fn main() {
     "C06" => vprop::c06::run(&cfg),
     "C07" => vprop::c07::run(&cfg),
     "C10" => vprop::c10::run(&cfg),
+    "C12" => vprop::c12::run(&cfg),
     "C19" => vprop::c19::run(&cfg),
     _ => {
       eprintln!("unknown property {prop}");
